@@ -1,7 +1,6 @@
 package props
 
 import (
-	"time"
 	"bytes"
 	"context"
 	"errors"
@@ -9,6 +8,7 @@ import (
 	"io"
 	"sort"
 	"sync"
+	"time"
 
 	"github.com/tsuna/gohbase/hrpc"
 	"github.com/tsuna/gohbase/pb"
@@ -110,16 +110,16 @@ func (s scanSpec) expected() []scanRow {
 
 // srvScanner is a region scanner at the model server.
 type srvScanner struct {
-	id        uint64
-	region    int
-	rows      []scanRow    // remaining whole rows, scan order
-	pending   [][]*pb.Cell // remaining fragments of a row already started
-	lastFlag  bool         // whether the final pending fragment is to be flagged partial
-	exhausted bool         // more_results_in_region=false was sent
-	closed    bool         // explicit close received
-	rangeDone bool         // no row of the scan lies beyond this region
-	heartbeat int
-	delivered bool // the id was delivered to the client in a response
+	id         uint64
+	region     int
+	rows       []scanRow    // remaining whole rows, scan order
+	pending    [][]*pb.Cell // remaining fragments of a row already started
+	lastFlag   bool         // whether the final pending fragment is to be flagged partial
+	exhausted  bool         // more_results_in_region=false was sent
+	closed     bool         // explicit close received
+	rangeDone  bool         // no row of the scan lies beyond this region
+	heartbeat  int
+	delivered  bool // the id was delivered to the client in a response
 	releasedAt time.Time
 }
 
@@ -144,14 +144,14 @@ type scanModel struct {
 	trace    []string
 	// observations
 	multiRegion, fragmented, heartbeats, boundEqBoundary, earlyNoMore bool
-	emptyFirst           int
+	emptyFirst                                                        int
 	// cancelAfter > 0: the scan's context is cancelled (cancelFn) while request number cancelAfter is
 	// being answered - the response still reaches the client; emitted counts the cells sent per row
-	cancelAfter int
-	cancelFn    func()
-	emitted     map[string]int
+	cancelAfter          int
+	cancelFn             func()
+	emitted              map[string]int
 	endedAt              time.Time
-	closeReqs, renewReqs                                              int
+	closeReqs, renewReqs int
 }
 
 var errBudget = errors.New("model server: request budget exceeded (scan does not terminate)")
